@@ -383,12 +383,15 @@ class FactsDB:
         self.by_q = {}
         self.tus = []
         self.errors = []
+        self.empty_tus = []
 
     def add_tu(self, path):
         tu, err, funcs = load_tu(path)
         self.tus.append(tu)
         if err:
             self.errors.append(tu)
+        if not funcs:
+            self.empty_tus.append(tu)
         for f in funcs:
             if f.m in self.funcs:
                 continue
